@@ -239,6 +239,9 @@ inductive FStmt where
   | jump (isBreak : Bool) (depth : Nat)
   /-- `this.m!(args)` as a statement: an impure call with scalar arguments -/
   | call (args : List (Expr × Ty))
+  /-- `x = this.m!(args)`: the value of an impure call with scalar arguments, whose
+  declared result type is `retTy`, assigned to a variable -/
+  | callAssign (lhs : Expr) (retTy : Ty) (args : List (Expr × Ty))
   /-- `yield? status` -/
   | yield
   /-- `this.m?(args)` as a statement: a coroutine call (may suspend) -/
@@ -393,6 +396,17 @@ def checkS (loops : List LoopSpec) (fs : List Expr) : FStmt → Option (List Exp
       | none => none
       | some _ => some []
   | .call args => if argsOK fs args then some (dropReceiver fs) else none
+  | .callAssign lhs retTy args =>
+    -- bcheckAssignment: lhs and call checked under the old facts; the bounds of a call
+    -- are those of its result type; then the impure-call kill set, the facts about the
+    -- target, no `lhs == rhs` (the call is not pure), the bound facts
+    if !isVar lhs then none else
+    match bcheck fs false lhs, typeBounds retTy with
+    | some _, some nb =>
+      if !argsOK fs args || !fitsType (typeOf lhs) nb then none
+      else if !isNumBase (typeOf lhs).base then some (dropLHS (dropReceiver fs) lhs)
+      else boundFacts (dropLHS (dropReceiver fs) lhs) lhs nb
+    | _, _ => none
   | .yield => some (dropSuspension fs)
   | .cocall args =>
     if argsOK (dropSuspension fs) args then some (dropReceiver (dropSuspension fs)) else none
